@@ -249,6 +249,9 @@ func GenBalFlags(r *RNG, j *Journal, val string, o BalGenOpts) BalFlags {
 	f.SortAlpha = r.Chance(1, 2)
 	if f.Val != "" && r.Chance(1, 3) {
 		f.Show = []string{genPattern(r, accounts)}
+		if r.Chance(1, 3) {
+			f.Show = append(f.Show, genPattern(r, accounts))
+		}
 	}
 	if r.Chance(1, 3) {
 		nr := r.Range(1, 2)
@@ -266,15 +269,24 @@ func GenBalFlags(r *RNG, j *Journal, val string, o BalGenOpts) BalFlags {
 			f.Map = append(f.Map, m)
 		}
 	}
+	// every pattern flag may be repeated (the patterns are alternatives): seeded change C02-c made only the last
+	// of several --account / --commodity patterns count
+	several := func(one func() string) []string {
+		ps := []string{one()}
+		for r.Chance(1, 3) && len(ps) < 3 {
+			ps = append(ps, one())
+		}
+		return ps
+	}
 	if r.Chance(1, 6) {
-		f.Remap = []string{genPattern(r, accounts)}
+		f.Remap = several(func() string { return genPattern(r, accounts) })
 	}
 	if !o.NoFilters {
-		if r.Chance(1, 5) {
-			f.Acc = []string{genPattern(r, accounts)}
+		if r.Chance(1, 4) {
+			f.Acc = several(func() string { return genPattern(r, accounts) })
 		}
-		if r.Chance(1, 6) && len(coms) > 0 {
-			f.Com = []string{"^" + Pick(r, coms) + "$"}
+		if r.Chance(1, 5) && len(coms) > 0 {
+			f.Com = several(func() string { return "^" + Pick(r, coms) + "$" })
 		}
 	}
 	f.CSV = r.Chance(1, 2)
